@@ -10,6 +10,7 @@ import (
 	"net"
 	"strconv"
 	"strings"
+	"sync"
 	"testing"
 	"testing/synctest"
 	"time"
@@ -68,6 +69,89 @@ func TestC15(t *testing.T) {
 		}
 		synctest.Test(t, func(t *testing.T) { c15Run(t, run, sc) })
 	}
+	for k := 0; k < run.N(3, 48); k++ {
+		desc := map[string]any{"idx": k, "kind": "many-requests-at-a-silent-target"}
+		if !run.Mine(n+k, desc) {
+			continue
+		}
+		synctest.Test(t, func(t *testing.T) { c15Burst(t, run, k, run.Rand(n+k)) })
+	}
+}
+
+// c15Burst: "promptly ... never hangs" under load: many requests are in flight at one target that
+// accepts them and stays silent. Each of them is owed its 504 at its own arrival + target timeout,
+// however many others are waiting, and a healthy request afterwards is served.
+func c15Burst(t *testing.T, run *Run, idx int, rng *rand.Rand) {
+	w := NewWorld(t, WorldOpt{})
+	defer w.Close()
+	w.MaxClientLife = 10 * time.Minute
+	run.Eval()
+	nreq := pick(rng, []int{130, 160, 260})
+	ft := w.AddTarget("flt:80", nil)
+	ft.RawServe = c15Serve(w)
+	to := DefTO
+	to.ResponseTimeout = c15Timeout
+	to.BufferRequests = rng.IntN(3) == 0
+	if c := w.Deploy("svc", []string{"flt:80"}, server.ServiceOptions{TLSRedirect: true}, to, 5*time.Second, time.Second); c.Err != "" {
+		run.Inconclusive("setup: %s", c.Err)
+		return
+	}
+	type res struct {
+		status     int
+		sent, done time.Duration
+		err        error
+	}
+	out := make([]res, nreq)
+	var wg sync.WaitGroup
+	for i := 0; i < nreq; i++ {
+		i := i
+		wg.Add(1)
+		go func() {
+			defer wg.Done()
+			time.Sleep(time.Second + time.Duration(i%10)*10*time.Millisecond + OffArrival)
+			conn, err := w.connect(false, "")
+			if err != nil {
+				out[i].err = err
+				return
+			}
+			defer conn.Close()
+			out[i].sent = w.Now()
+			go fmt.Fprintf(conn, "GET /f HTTP/1.1\r\nHost: c15.example\r\nX-V: b%d\r\nX-Fault: silence\r\nX-D: 0\r\n\r\n", i)
+			m, err := readRawResponse(bufio.NewReader(conn), "GET")
+			out[i].done, out[i].err = w.Now(), err
+			if m != nil {
+				out[i].status = m.Status()
+			}
+		}()
+	}
+	wg.Wait()
+	late, worst := 0, time.Duration(0)
+	for i, r := range out {
+		if r.err != nil || r.status != 504 {
+			run.Violate("burst:wrong-status", fmt.Sprintf("request %d of %d at a silent target: status %d err %v, expected 504", i, nreq, r.status, r.err), map[string]any{"idx": idx, "requests": nreq}, func() []string { return w.Trace(60) })
+			return
+		}
+		if d := r.done - r.sent; d > c15Timeout+Eps {
+			late++
+			if d > worst {
+				worst = d
+			}
+		}
+	}
+	if late > 0 {
+		run.Violate("burst:not-prompt", fmt.Sprintf("%d of %d requests in flight at a silent target got their 504 later than the target timeout %v after their arrival (slowest: %v)", late, nreq, c15Timeout, worst), map[string]any{"idx": idx, "requests": nreq}, func() []string { return w.Trace(60) })
+		return
+	}
+	conn, err := w.connect(false, "")
+	if err == nil {
+		defer conn.Close()
+		go fmt.Fprintf(conn, "GET /f HTTP/1.1\r\nHost: c15.example\r\nX-V: after\r\nX-Fault: none\r\n\r\n")
+		if m, err := readRawResponse(bufio.NewReader(conn), "GET"); err != nil || m.Status() != 200 {
+			run.Violate("burst:not-serving-afterwards", fmt.Sprintf("healthy request after %d timed-out ones: %v %v", nreq, m, err), map[string]any{"idx": idx, "requests": nreq}, func() []string { return w.Trace(60) })
+			return
+		}
+	}
+	run.Class(fmt.Sprintf("burst|n=%d|bufreq=%v", nreq, to.BufferRequests))
 }
 
 // the faulty target: behaviour chosen by the X-Fault / X-D headers of each request
